@@ -129,7 +129,7 @@ pub fn run(opts: &Opts, rep: &mut Report) {
         if let Err(msg) = res {
             shared = Matcher::default();
             let loc = msg.rsplit(" @ ").next().unwrap_or("").to_owned();
-            if loc.starts_with("/repo/") {
+            if crate::refm::in_repository(&loc) {
                 rep.violation("C15", "panic-in-pattern-api", format!("panic@{loc}"), jobj! {"message" => msg, "case_id" => case_id.clone()});
             } else {
                 rep.inconclusive(format!("monitor panicked outside the repository code: {msg}"));
@@ -155,7 +155,18 @@ fn one_case(opts: &Opts, idx: u64, rng: &mut Rng, case_id: &str, mut shared: &mu
         // heavy cases: long needles over a long haystack so that the sum of the atom scores leaves the u16 range
         let heavy = idx % 128 == 127;
         let mut natoms = if rng.chance(1, 10) { 0 } else { rng.range(1, 6) };
-        let mut pattern = Pattern::parse("", CaseMatching::Smart, Normalization::Smart);
+        // the pattern object has a history: it was parsed / constructed / reparsed from some text (possibly with long
+        // words) before its public `atoms` field is replaced; afterwards single atoms are edited in place as well
+        let mut pattern = match rng.below(4) {
+            0 => Pattern::parse("", CaseMatching::Smart, Normalization::Smart),
+            1 => Pattern::parse(&format!("{} {}", gen_word(&mut rng, 12), gen_word(&mut rng, 3)), CaseMatching::Smart, Normalization::Smart),
+            2 => Pattern::new(&format!("{} !{}", gen_word(&mut rng, 9), gen_word(&mut rng, 20)), CaseMatching::Ignore, Normalization::Never, AtomKind::Substring),
+            _ => {
+                let mut p = Pattern::parse(&gen_word(&mut rng, 5), CaseMatching::Respect, Normalization::Smart);
+                p.reparse(&format!("^{}$ {}", gen_word(&mut rng, 16), gen_word(&mut rng, 2)), CaseMatching::Smart, Normalization::Smart);
+                p
+            }
+        };
         let hay_s = if heavy {
             let len = rng.range(1500, 5000);
             (0..len).map(|_| *rng.pick(ALPHA)).collect::<String>()
@@ -184,6 +195,23 @@ fn one_case(opts: &Opts, idx: u64, rng: &mut Rng, case_id: &str, mut shared: &mu
             rep.count("c15.heavy-cases");
         } else {
             pattern.atoms = (0..natoms).map(|_| gen_atom(&mut rng)).collect();
+            // in-place edits of the public field
+            match rng.below(8) {
+                0 if pattern.atoms.len() >= 2 => {
+                    pattern.atoms.pop();
+                }
+                1 if !pattern.atoms.is_empty() => {
+                    let k = rng.below(pattern.atoms.len());
+                    pattern.atoms[k].negative = !pattern.atoms[k].negative;
+                }
+                2 if !pattern.atoms.is_empty() => {
+                    let k = rng.below(pattern.atoms.len());
+                    pattern.atoms[k] = gen_atom(&mut rng);
+                }
+                3 => pattern.atoms.insert(0, gen_atom(&mut rng)),
+                _ => (),
+            }
+            natoms = pattern.atoms.len();
         }
         let hay = Utf32String::from(hay_s.as_str());
         let mut h = Hasher64::new();
